@@ -299,4 +299,10 @@ func runC16(c *core.Ctx) {
 	importObligations(c, runC14, "R4", func(o *core.Obligation) bool {
 		return strings.Contains(o.Key, "conversion/Must") || strings.Contains(o.Key, "conversion/default")
 	})
+	// the codecs decode what the layers below hand them: the byte collector keeps a private copy of what it is
+	// given (C14-R5), and the delimiter framing the README pipeline puts under the text codec cuts at the delimiter
+	// (C04-R5)
+	c.Rule("R6", "the text/JSON codecs' inputs are intact: collectors copy what they are written, the delimiter decoder compares the whole delimiter (shared with C14-R5, C04-R5)", 2)
+	importObligations(c, runC14, "R6", func(o *core.Obligation) bool { return o.Rule == "R5" })
+	importObligations(c, runC04, "R6", func(o *core.Obligation) bool { return o.Rule == "R5" })
 }
